@@ -33,6 +33,9 @@ func (r *ComDoc) readDir() error {
 	raw := make([]RawDirEnt, count)
 	cooked := make([]DirEnt, count)
 	rootIndex := -1
+	if _, err := r.chainLength(r.Header.DirNextSector); err != nil {
+		return err
+	}
 	for sector := r.Header.DirNextSector; sector >= 0; sector = r.SAT[sector] {
 		if err := r.readSectorStruct(sector, raw); err != nil {
 			return err
@@ -78,6 +81,13 @@ func (r *ComDoc) ListDir(parent *DirEnt) ([]*DirEnt, error) {
 	if parent.Type != DirRoot && parent.Type != DirStorage {
 		return nil, errors.New("ListDir() on a non-directory object")
 	}
+	if parent.StorageRoot == -1 {
+		return nil, nil
+	}
+	valid := func(index int32) bool { return index >= 0 && int(index) < len(r.Files) }
+	if !valid(parent.StorageRoot) {
+		return nil, errors.New("directory entry is out of range")
+	}
 	top := &r.Files[parent.StorageRoot]
 	stack := []*DirEnt{top}
 	var files []*DirEnt
@@ -86,10 +96,19 @@ func (r *ComDoc) ListDir(parent *DirEnt) ([]*DirEnt, error) {
 		item := stack[i]
 		stack = stack[:i]
 		files = append(files, item)
+		if len(files) > len(r.Files) {
+			return nil, errors.New("directory tree loops")
+		}
 		if item.LeftChild != -1 {
+			if !valid(item.LeftChild) {
+				return nil, errors.New("directory entry is out of range")
+			}
 			stack = append(stack, &r.Files[item.LeftChild])
 		}
 		if item.RightChild != -1 {
+			if !valid(item.RightChild) {
+				return nil, errors.New("directory entry is out of range")
+			}
 			stack = append(stack, &r.Files[item.RightChild])
 		}
 	}
